@@ -38,11 +38,21 @@ func init() {
 				}
 			}
 		}
+		// a history: a dial that fails (refused), then - same goroutine, same poller, the slot just
+		// released - a dial that must succeed and be usable
+		for _, seq := range []string{"refuse>unix-accept", "refuse>accept"} {
+			seq := seq
+			vs = append(vs, Variant{
+				Name: fmt.Sprintf("target=%s,timeout=1s,dials=2-sequential", seq),
+				Make: func() *vsched.Scenario { return dialScenario(seq, "1s", 2) },
+			})
+		}
 		return vs
 	})
 }
 
 type dialRes struct {
+	target string
 	conn   netpoll.Connection
 	err    error
 	echoOK bool
@@ -71,7 +81,13 @@ func dialScenario(target, timeout string, dials int) *vsched.Scenario {
 		srvCounter++
 		network, addr := "tcp", ""
 		uname := fmt.Sprintf("verif-dial-%d-%d", syscall.Getpid(), srvCounter)
-		switch target {
+		sequential := strings.Contains(target, ">")
+		first, second := target, target
+		if sequential {
+			parts := strings.SplitN(target, ">", 2)
+			first, second = parts[0], parts[1]
+		}
+		switch second {
 		case "accept", "accept-reset":
 			var port int
 			lfd, port = vsyscall.HListenTCP(8)
@@ -96,8 +112,45 @@ func dialScenario(target, timeout string, dials int) *vsched.Scenario {
 		if timeout == "1s" {
 			to = time.Second
 		}
-		for i := 0; i < dials; i++ {
-			r := &dialRes{}
+		if sequential {
+			// taken while the second target's listener holds its own port, so the two cannot coincide
+			refusedAddr := fmt.Sprintf("127.0.0.1:%d", vsyscall.HClosedPort())
+			r0, r1 := &dialRes{target: first}, &dialRes{target: second}
+			res = append(res, r0, r1)
+			net1, addr1 := network, addr
+			vsched.Go("dialer0", func() {
+				defer func() { r0.done, r1.done = true, true }()
+				vsched.LogEvent("dial0:start")
+				r0.conn, r0.err = netpoll.DialConnection("tcp", refusedAddr, to)
+				r0.ret = true
+				vsched.LogEvent(fmt.Sprintf("dial0:ret %v", r0.err != nil))
+				if r0.err == nil && !isNilConn(r0.conn) {
+					r0.conn.Close()
+				}
+				vsched.LogEvent("dial1:start")
+				r1.conn, r1.err = netpoll.DialConnection(net1, addr1, to)
+				r1.ret = true
+				vsched.LogEvent(fmt.Sprintf("dial1:ret %v", r1.err != nil))
+				if r1.err == nil && !isNilConn(r1.conn) {
+					defer r1.conn.Close()
+					w := r1.conn.Writer()
+					w.WriteString("ping1")
+					if err := w.Flush(); err != nil {
+						r1.echoed = "flush:" + err.Error()
+						return
+					}
+					p, err := r1.conn.Reader().Next(5)
+					if err != nil {
+						r1.echoed = "read:" + err.Error()
+						return
+					}
+					r1.echoed = string(p)
+					r1.echoOK = r1.echoed == "ping1"
+				}
+			})
+		}
+		for i := 0; i < dials && !sequential; i++ {
+			r := &dialRes{target: target}
 			res = append(res, r)
 			i := i
 			vsched.Go(fmt.Sprintf("dialer%d", i), func() {
@@ -125,9 +178,13 @@ func dialScenario(target, timeout string, dials int) *vsched.Scenario {
 				}
 			})
 		}
-		if target == "accept" || target == "accept-reset" || target == "unix-accept" {
+		accepts := dials
+		if sequential {
+			accepts = 1
+		}
+		if second == "accept" || second == "accept-reset" || second == "unix-accept" {
 			vsched.Go("acceptor", func() {
-				for k := 0; k < dials; k++ {
+				for k := 0; k < accepts; k++ {
 					vsched.WaitCond("listener-readable", func() bool { return vsyscall.HReadable(lfd) || allReturned(res) })
 					if allReturned(res) && !vsyscall.HReadable(lfd) {
 						return
@@ -136,7 +193,7 @@ func dialScenario(target, timeout string, dials int) *vsched.Scenario {
 					if c < 0 {
 						return
 					}
-					if target == "accept-reset" {
+					if second == "accept-reset" {
 						vsyscall.HResetClose(c)
 						continue
 					}
@@ -194,6 +251,7 @@ func dialScenario(target, timeout string, dials int) *vsched.Scenario {
 			if !r.ret {
 				continue
 			}
+			target := r.target // per dial (the sequential variants dial two different targets)
 			tag := fmt.Sprintf("dial#%d target=%s", i, target)
 			start, ret := l.first(fmt.Sprintf("dial%d:start", i)), l.firstPrefix(fmt.Sprintf("dial%d:ret", i))
 			fired := false
